@@ -786,6 +786,7 @@ def guard_rule(chk, db):
 META_EXTRA = 'PROXY (proxy assignments write through); STRBIT (string constructor maps the rightmost character to bit 0); STRLEN (it uses min(n, size - pos) characters); SHIFT; PARAM.'
 META = (META[0] + " " + META_EXTRA, META[1])
 META = (META[0] + " DELEG also for basic_bitset's single-bit members (primitive of their own name); BITPRIM (bit primitives evaluated over the two-point bit domain); IT4i.", META[1])
+META = (META[0] + ' AGG (all / any / none over word classes zero / full / mixed).', META[1])
 
 
 def run(chk, tier):
